@@ -33,6 +33,7 @@ var zzC13Operands = []zzOperand{
 	// white space inside a string is part of the string
 	{src: "w", str: "p  q"},
 	{src: "'p  q'", str: "p  q"},
+	{src: "m[ 'k' ]", num: 5, isNum: true},
 }
 
 var zzC13Ops = []string{"==", "!=", "<", ">", "<=", ">=", "+", "-", "*", "&&", "||", "===", "!=="}
@@ -121,7 +122,7 @@ func VerifC13_Positions() {
 			want = "no"
 		}
 	case 3:
-		o := zzC13Operands[[]int{0, 1, 2, 3, 4, 5, 7}[zzChoice("l", 7)]]
+		o := zzC13Operands[[]int{0, 1, 2, 3, 4, 5, 7, 9}[zzChoice("l", 8)]]
 		expr = o.src
 		if o.isNum {
 			want = strconv.Itoa(o.num)
